@@ -67,6 +67,9 @@ int cmd_repr(const Args& a) {
     Rng pr(hash_paths(all) ^ r.s); std::vector<Point64> pts; std::set<std::pair<int64_t, int64_t>> seen;
     for (auto& p : all) for (auto& q : p) if ((int)pts.size() < npts / 2) { Point64 c((int64_t)(q.x + pr.range(-6, 6)), (int64_t)(q.y + pr.range(-6, 6))); if (seen.insert({c.x, c.y}).second) pts.push_back(c); }
     while ((int)pts.size() < npts) { Point64 c((int64_t)pr.range(-4, R + 4), (int64_t)pr.range(-4, R + 4)); if (seen.insert({c.x, c.y}).second) pts.push_back(c); }
+    std::string what = "\"case\":{\"subj\":" + jpaths(S) + ",\"clip\":" + jpaths(C) + ",\"emb\":0}";
+    long long id0 = id; id += 1 + 10 + ncomp;
+    guarded(os, what, 300, [&, id0](std::ostream& os) { long long id = id0;
     emit_case(os, ++id, S, C, pts, false, nexec);
     os << Ev("Base").str() << "\n" << Ev("Alg").str() << "\n";
     std::vector<std::vector<Gen>> lists;
@@ -82,6 +85,7 @@ int cmd_repr(const Args& a) {
       emit_case(os, ++id, s2, c2, p2, true, nexec);
       os << Ev("Rel").kv("gs", jarr(gs.begin(), gs.end(), gjson)).str() << "\n"; ++nrel;
     }
+    });
   }
   fprintf(stderr, "cases=%lld execs=%lld rels=%lld\n", id, nexec, nrel);
   return 0;
